@@ -280,6 +280,111 @@ M('c11-resolver-always-raises', 'C11', 'R4', HD,
                     )
 """)
 
+# the answer is "the designated handler or a 415" (seeded s4-c11-2): the candidates of best_match() are the REGISTERED keys,
+# so a key without '/' raises InvalidMediaType (parent of InvalidMediaRange); the bridge helper has to swallow both
+_EXC = """    except ValueError:
+        pass
+
+    return result
+"""
+M('c11-bridge-catches-range-only', 'C11', 'R4', HD, _EXC, _EXC.replace("ValueError", "errors.InvalidMediaRange"))
+M('c11-bridge-catches-type-error', 'C11', 'R4', HD, _EXC, _EXC.replace("ValueError", "TypeError"))
+M('c11-bridge-unprotected', 'C11', 'R4', HD, """    result = None
+
+    try:
+        # NOTE(jmvrbanac): Mimeparse will return an empty string if it can
+        # parse the media type, but cannot find a suitable type.
+        result = mediatypes.best_match(all_media_types, media_type)
+    except ValueError:
+        pass
+
+    return result
+""", """    return mediatypes.best_match(all_media_types, media_type)
+""")
+M('c11-bridge-bad-key-is-400', 'C11', 'R4', HD, _EXC, """    except errors.InvalidMediaRange:
+        pass
+    except errors.InvalidMediaType as ex:
+        raise errors.HTTPBadRequest(description=str(ex)) from ex
+
+    return result
+""")
+M('c11-resolver-inlined-range-only', 'C11', 'R4', HD,
+  "                matched_type = _best_match(media_type, tuple(self.data.keys()))\n",
+  "                try:\n"
+  "                    matched_type = mediatypes.best_match(tuple(self.data.keys()), media_type)\n"
+  "                except errors.InvalidMediaRange:\n"
+  "                    matched_type = None\n")
+# negative controls verified by hand with --root (must stay silent): `except (errors.InvalidMediaType, errors.InvalidMediaRange)`,
+# `except errors.InvalidMediaType` (the parent class alone), `except Exception`, the seeded direct-return shape with
+# `except ValueError: return None`, and the call inlined into the resolver under `except ValueError`.
+
+# ----------------------------------------------------------------------- R8
+# q never decides WHETHER a range matches (seeded s4-c04-2 / s4-c11-1): a q=0 range has to take part in the ranking and
+# win by specificity, otherwise `application/json;q=0, */*` serves JSON.  Shared with C04 (default error serializer).
+_MS = "    def match_score(self, media_type: _MediaType) -> Tuple[int, int, int, int, float]:\n"
+_FINAL = "        return (main_matches, sub_matches, exact_match, len(matching), self.quality)\n"
+M('c11-q0-range-never-matches', 'C11', 'R8', MT, _MS,
+  _MS + "        if not self.quality:\n            return self._NOT_MATCHING\n\n", also=('C04',))
+M('c11-q0-folded-into-main-mismatch', 'C11', 'R8', MT,
+  "elif self.main_type != media_type.main_type:", "elif self.main_type != media_type.main_type or not self.quality:", also=('C04',))
+M('c11-q0-checked-last-via-local', 'C11', 'R8', MT, _FINAL,
+  "        acceptable = self.quality > 0.0\n        if not acceptable:\n            return self._NOT_MATCHING\n" + _FINAL, also=('C04',))
+M('c11-score-only-when-q-positive', 'C11', 'R8', MT, _FINAL,
+  "        if self.quality:\n    " + _FINAL + "        return self._NOT_MATCHING\n", also=('C04',))
+M('c11-q0-concrete-range-never-matches', 'C11', 'R8', MT, _MS,
+  _MS + "        if self.quality <= 0.0:\n            if self.main_type != '*':\n                return self._NOT_MATCHING\n\n", also=('C04',))
+M('c11-q0-conditional-expression', 'C11', 'R8', MT, _FINAL,
+  "        score = (main_matches, sub_matches, exact_match, len(matching), self.quality)\n"
+  "        return score if self.quality else self._NOT_MATCHING\n", also=('C04',))
+_RANGES = "    return tuple(_MediaRange.parse(media_range) for media_range in header.split(','))\n"
+_MAX = """    most_specific = max(
+        media_range.match_score(parsed_media_type)
+        for media_range in _parse_media_ranges(header)
+    )
+"""
+_MAX_DEFAULT = """    most_specific = max(
+        (
+            media_range.match_score(parsed_media_type)
+            for media_range in _parse_media_ranges(header)%s
+        ),
+        default=_MediaRange._NOT_MATCHING,
+    )
+"""
+M2('c11-q0-ranges-dropped-when-parsing', 'C11', 'R8', [
+    {'file': MT, 'old': _RANGES,
+     'new': "    media_ranges = map(_MediaRange.parse, header.split(','))\n"
+            "    return tuple(media_range for media_range in media_ranges if media_range.quality)\n"},
+    {'file': MT, 'old': _MAX, 'new': _MAX_DEFAULT % ''}], also=('C04',))
+M2('c11-q0-ranges-filtered-when-parsing', 'C11', 'R8', [
+    {'file': MT, 'old': _RANGES,
+     'new': "    return tuple(filter(lambda mr: mr.quality > 0.0, map(_MediaRange.parse, header.split(','))))\n"},
+    {'file': MT, 'old': _MAX, 'new': _MAX_DEFAULT % ''}], also=('C04',))
+M('c11-q0-ranges-skipped-when-scoring', 'C11', 'R8', MT, _MAX, _MAX_DEFAULT % "\n            if media_range.quality", also=('C04',))
+# negative controls verified by hand with --root (must stay silent): `default=_MediaRange._NOT_MATCHING` alone in quality();
+# the subtype block moved in front of the main-type block; `if self.main_type != media_type.main_type and '*' not in (...)`
+# as an early return; `q = self.quality` bound first and returned as the last component; the mismatch tests inverted
+# (`if a == b: ... else: return self._NOT_MATCHING`).
+
+# ----------------------------------------------------------------------- R9
+# one-sided case normalisation (seeded s4-c12-2): the dict lookup and match_score() compare case-sensitively, so folding
+# the requested type (or the stored key) alone makes a key with a letter of the other case unreachable.  Shared with C12.
+_DEFAULTED = """            if media_type == '*/*' or not media_type:
+                media_type = default
+"""
+M('c11-resolver-lowercases-requested-type', 'C11', 'R9', HD, _DEFAULTED,
+  _DEFAULTED + "\n            media_type = media_type.lower()\n", also=('C12',))
+M('c11-resolver-casefolds-defaulted-type', 'C11', 'R9', HD, _DEFAULTED,
+  "            media_type = (media_type if media_type and media_type != '*/*' else default).casefold()\n", also=('C12',))
+M('c11-resolver-negotiates-lowercased', 'C11', 'R9', HD,
+  "matched_type = _best_match(media_type, tuple(self.data.keys()))", "matched_type = _best_match(media_type.lower(), tuple(self.data.keys()))",
+  also=('C12',))
+M('c11-setitem-lowercases-key', 'C11', 'R9', HD,
+  "        super().__setitem__(key, value)\n\n        # NOTE(kgriffs): When the mapping changes",
+  "        super().__setitem__(key.lower(), value)\n\n        # NOTE(kgriffs): When the mapping changes", also=('C12',))
+# negative controls verified by hand with --root (must stay silent): both edits together (`media_type = media_type.lower()` in
+# the resolver AND `super().__setitem__(key.lower(), value)`); a lower-cased copy used only in the 415 description.
+# Unknown idiom (exit 2): `media_type = media_type.strip()`, keys folded only inside the best-match call.
+
 # ----------------------------------------------------------------------- R5
 M('c11-client-accepts-true-on-error', 'C11', 'R5', RQ,
   """        except ValueError:
